@@ -17,6 +17,7 @@ THEOREMS = [("C10", ["C10_refs_in_bounds", "C10_init_before_deref", "C10_live", 
                      "C10_use_readonly", "C10_nonvacuous_freeze", "C10_nonvacuous_machine"])]
 PROOF_FILES = ["proofs/OwnershipProofs.v", "props/C10.v"]
 TRUSTED_BASE = [
+    "`hde` ops (hostile bytes under Option<_> / IgnoredAny): the expected token is computed by the deserializer model coq/model/De.v (driver `de` on the same graph, target, bytes, depth budget); the handle machine treats them as plain uses; which delivered event the visitor of the Rust type (String / i64 / () / IgnoredAny) accepts is a Python-side rule (serde's invalid_type)",
     "Coq 8.16.1 kernel; no axioms (Print Assumptions: closed)",
     "hand-written model/Ownership.v: index-level model of TryFrom<SchemaMut> for Schema (self_referential.rs l.249-438) and of the "
     "handle discipline Schema / Arc<Schema> / Reader / borrows; tied to the code by the Miri replay (a detector, not a proof)",
@@ -111,6 +112,8 @@ class Hist:
         self.tmp = 100
         self.scopes = []    # temp ids of open `with` scopes
         self.has_threads = False
+        self.model_de = []  # (op index, model `de` line) of the hde ops
+        self.same = {}      # group -> op indices whose result tokens must be equal
 
     def file(self, k, codec, n, perblock, corrupt="none"):
         self.pre.append("(file %d %s %d %d %s)" % (k, codec, n, perblock, corrupt))
@@ -168,6 +171,16 @@ class Hist:
         t = self._t()
         self.add("(debugpar %d)" % s, "data", ["(borrow %d %d)" % (s, t), "(use %d)" % t, "(use %d)" % t, "(drop %d)" % t], r"\(debugpar eq \d{1,5}\)")
         # (the interleaving is forced through channels: no need for the additional Miri schedules that free-running `threads` ops get)
+    def hde(self, s, g, target, data, depth=64):
+        # hostile datum bytes under an Option<_> / IgnoredAny target: the expected token is the MODEL's (coq/model/De.v through the
+        # driver's `de` on the same graph, target, bytes and depth budget): Ok or a clean Err
+        mt = {"optignored": "(option ignored)", "optstring": "(option string)", "optlong": "(option i64)", "optunit": "(option unit)", "ignored": "ignored"}[target]
+        self.model_de.append((len(self.ops), "de %s %s x%s slice (cfg 1000000000 %d)" % (graph_sx(g), mt, data.hex(), depth)))
+        self._through(s, "(hde %d %s x%s %d)" % (s, target, data.hex(), depth), r"\(hde (none|some|ok|err)\)")
+    def debug_same(self, s, group):
+        # `{:?}` of one schema VALUE observed at several points of its life (before / after moves): the same text every time
+        self.same.setdefault(group, []).append(len(self.ops))
+        self.debug(s)
     def symborrow(self, s):
         self._through(s, "(symborrow %d)" % s, r"\(symborrow err err\)")
     def threads(self, s, n, m, k, fits=True):
@@ -454,10 +467,85 @@ def gen_random_history(rng, idx):
     return h
 
 
+def varint(n):
+    z = (n << 1) ^ (n >> 63)
+    out = bytearray()
+    while True:
+        b = z & 0x7F
+        z >>= 7
+        if z:
+            out.append(b | 0x80)
+        else:
+            out.append(b)
+            return bytes(out)
+
+
+SMALL_UNIONS = [
+    [("union", [])], [("union", [1]), "string"], [("union", [1]), "null"], [("union", [1]), "long"],
+    [("union", [1]), ("record", "Only", [("a", 2)]), "long"], [("union", [1]), ("array", 2), "long"],
+    [("union", [1, 2]), "null", "string"], [("union", [1, 2]), "string", "null"], [("union", [1, 2]), "long", "string"],
+    [("union", [1, 2, 3]), "null", "long", "string"],
+]
+
+
+def gen_small_union_histories(rng, tier):
+    """unions of 0, 1, 2 and 3 branches decoded into Option<_> (the hint with its own branch lookup) and IgnoredAny from hostile
+    bytes: every discriminant around the branch count (0, 1, 2, 3, -1, 63, 64, huge) followed by a payload that fits a string /
+    a long / nothing; the schema used in place, moved and shared. Ok / Err as the model says, never a fault."""
+    out = []
+    targets = ["optignored", "optstring", "optlong", "optunit", "ignored"]
+    for gi, g in enumerate(SMALL_UNIONS):
+        h = Hist("small-union-%d" % gi, "small-union-option")
+        h.build(0, g); h.freeze(0, 0)
+        discs = [0, 1, 2, 3, -1, 63, 64, 2**40]
+        if tier == "quick":
+            discs = [0, 1, 2, -1] + rng.sample([3, 63, 64, 2**40], 1)
+        slot = 0
+        for i, d in enumerate(discs):
+            for t in (targets if tier != "quick" else rng.sample(targets[:4], 2) + [targets[4]]):
+                h.hde(slot, g, t, varint(d) + rng.choice([b"\x06abc", b"\x06abc", b"", b"\x00"]))
+            if i == 1:
+                h.move(slot, slot + 1, "box"); slot += 1
+            elif i == 2:
+                h.arc(slot, slot + 1); slot += 1
+        h.drop(slot)
+        out.append(h)
+    return out
+
+
+def gen_self_record_histories(rng, tier):
+    """graphs whose frozen form is as small as can be -- ONE node that refers to itself (a record whose field is the record:
+    only buildable by hand), one-node leaves, the two-node cycle next to it -- frozen and then MOVED (returned, boxed, pushed in
+    a reallocating Vec, put behind an Arc) and used after every move: `{:?}` (the same text as before the move), a decode under
+    a small depth budget (the model's clean recursion-limit error), a rendering while another thread is inside one."""
+    out = []
+    graphs = [("self1", [("record", "S", [("inner", 0)])]),
+              ("self1b", [("record", "ns.S", [("a", 0), ("b", 0)])]),
+              ("leaf1", ["long"]), ("enum1", [("enum", "E", ["A", "B"])]),
+              ("self2", [("record", "S", [("inner", 1)]), ("record", "T", [("back", 0)])])]
+    for name, g in graphs:
+        h = Hist("single-%s" % name, "single-node-self-reference")
+        h.build(0, g); h.freeze(0, 0)
+        cyc = name.startswith("self")
+        def use(slot):
+            h.debug_same(slot, "d"); h.info(slot)
+            h.hde(slot, g, "ignored", b"" if cyc else b"\x02", rng.choice([1, 3, 8]))
+            h.hde(slot, g, "optignored", b"" if cyc else b"\x02", rng.choice([2, 5]))
+        use(0)
+        h.move(0, 1, "box"); use(1)
+        h.move(1, 2, "vec"); use(2); h.debugpar(2)
+        h.move(2, 3, "plain"); use(3)
+        h.arc(3, 4); h.clone(4, 5); h.drop(4); use(5); h.move(5, 6, "vec"); use(6); h.debugpar(6)
+        h.drop(6)
+        out.append(h)
+    return out
+
+
 def generate(ctx):
     rng = random.Random(ctx["seed"] * 1000003 + 10)
     tier = "thorough" if ctx.get("focus") else ctx["tier"]
     hs = gen_freeze_histories(rng, tier) + gen_handle_histories(rng, tier) + gen_boundary_histories(rng, tier)
+    hs += gen_small_union_histories(rng, tier) + gen_self_record_histories(rng, tier)
     n_random = 40 if tier == "quick" else 1500
     hs += [gen_random_history(rng, i) for i in range(n_random)]
     hs.append(gen_known_finding())
@@ -659,6 +747,35 @@ def run(ctx):
                     diffs.append({"impl_case": h.line(), "what": "op %d %s: model %s, implementation %s" % (i, text, ms, t), "class": h.cls})
             if strict is not None and ic != "rejected" and not re.fullmatch(strict, t):
                 violations.append({"impl_case": h.line(), "what": "op %d %s: expected %s, got %s (native)" % (i, text, strict, t), "class": h.cls})
+    # hostile decodes: the token the MODEL of the deserializer gives (De.v); one schema value rendered at several points: same text
+    for h in hists:
+        l, toks, kept = nat[h.id]
+        if len(toks) != len(h.ops):
+            continue
+        if h.model_de:
+            for (i, mline), rm in zip(h.model_de, C.run_lines(C.AVROMODEL, [ml for _, ml in h.model_de])):
+                if rm.startswith("(err"):
+                    want = "(hde err)"
+                elif rm.startswith("(ok (some"):
+                    # the event the deserializer delivers must also be one the Rust type's visitor takes (String: a string; i64: an
+                    # integer; (): unit; IgnoredAny: anything) -- otherwise serde's invalid_type error
+                    tname = h.ops[i][0].split(" ")[2]
+                    fits = {"optstring": ("(str ", "(bstr ", "(string "), "optunit": ("unit",), "optignored": None,
+                            "optlong": ("(i8 ", "(i16 ", "(i32 ", "(i64 ", "(u8 ", "(u16 ", "(u32 ", "(u64 ")}[tname]
+                    payload = rm[len("(ok (some "):]
+                    want = "(hde some)" if fits is None or payload.startswith(fits) else "(hde err)"
+                elif rm.startswith("(ok none"):
+                    want = "(hde none)"
+                elif rm.startswith("(ok ignored"):
+                    want = "(hde ok)"
+                else:
+                    continue
+                if toks[i] != "(rejected)" and toks[i] != want:
+                    violations.append({"impl_case": h.line(), "what": "op %d %s: expected %s (model: %s), got %s (native)" % (i, h.ops[i][0], want, mline[:200], toks[i]), "class": h.cls})
+        for grp, idxs in h.same.items():
+            vals = set(toks[i] for i in idxs if toks[i] != "(rejected)")
+            if len(vals) > 1:
+                violations.append({"impl_case": h.line(), "what": "`{:?}` of one frozen schema differs between points of its life (before / after moves): %s" % sorted(vals)[:4], "class": h.cls})
     # Miri
     t1 = time.time()
     drop_foreign_miri_job()
@@ -710,6 +827,9 @@ def run(ctx):
                     "(Cursor<Vec<u8>>, std BufReader, a drop-counting BufRead: dropped exactly once) then read again / moved / outlived by a schema clone / dropped; "
                     "configs alive across other handles' drops; scoped threads "
                     "through one &Schema vs sequential (round trips, `{:?}` of the schema, messages of failing serializations), several Miri seeds; "
+                    "unions of 0..3 branches decoded into Option<_> / IgnoredAny from hostile bytes with every discriminant around the branch count "
+                    "(token = the deserializer model's); one-node graphs incl. the record that refers to itself, frozen then moved (Box, reallocating Vec, Arc) "
+                    "and rendered / decoded under a small depth budget / rendered in parallel after every move (same `{:?}` text at every point); "
                     "`{:?}` of frozen schemas incl. cyclic ones (terminates, bounded, stable) and the same while another thread is parked inside a rendering; values kept after all schemas are dropped; enum symbols / field "
                     "names requested as &str) replayed natively and under Miri; native = Miri = model-predicted outcomes "
                     "(%d model steps, each visited state checked with live_okb)" % n_model_ops,
